@@ -475,7 +475,7 @@ func (r *rwRT) ruleTmplCombine() {
 	fn := r.method("yieldAst", "CallCombine")
 	c.fn(relName(fn))
 	st := newState()
-	y := st.alloc(&Obj{Kind: 's', Fields: map[string]AV{"seqImportedName": mkString("seq"), "funRetParamTy": exprLeaf(r, "T")}})
+	y := r.newYieldAst(st, "seq", exprLeaf(r, "T"))
 	s1, _ := r.heapNode(st, "BlockStmt", map[string]AV{"List": leafSym("s1")})
 	s2, _ := r.heapNode(st, "BlockStmt", map[string]AV{"List": leafSym("s2")})
 	in := r.interp(rwConfig{root: fn, inlineAll: true})
